@@ -625,6 +625,12 @@ Proof. intros P d [H1 H2]. unfold wrap. q_cases; lra. Qed.
 (* ========================================================================================== *)
 (* F. summaries                                                                                *)
 (* ========================================================================================== *)
+Lemma sqr_nonneg : forall z, 0 <= z * z.
+Proof.
+  intros z. destruct (Qlt_le_dec z 0) as [H|H]; [|now apply Qmult_le_0_compat].
+  setoid_replace (z * z) with ((- z) * (- z)) by ring. apply Qmult_le_0_compat; lra.
+Qed.
+
 Lemma sq_qabs : forall x, sq (qabs x) == x * x.
 Proof. intros x. unfold sq, qabs. destruct (Qltb_spec x 0); ring. Qed.
 
@@ -700,9 +706,9 @@ Proof.
   assert (Hmap : map sq l = map (fun v => v * v) l) by reflexivity.
   assert (H1 : mean l * Qnat (List.length l) == qsum l) by (apply mean_times_n; assumption).
   assert (H2 : mean (map sq l) * Qnat (List.length l) == qsum (map sq l)).
-  { rewrite <- (map_length sq l) at 2. apply mean_times_n. rewrite El. discriminate. }
+  { pose proof (mean_times_n (map sq l)) as H. rewrite map_length in H. apply H. rewrite El. discriminate. }
   assert (H3 : mean (map (fun v => sq (qabs (v - mean l))) l) * Qnat (List.length l) == qsum (map (fun v => sq (qabs (v - mean l))) l)).
-  { rewrite <- (map_length (fun v => sq (qabs (v - mean l))) l) at 2. apply mean_times_n. rewrite El. discriminate. }
+  { pose proof (mean_times_n (map (fun v => sq (qabs (v - mean l))) l)) as H. rewrite map_length in H. apply H. rewrite El. discriminate. }
   repeat split.
   - exact H1.
   - rewrite <- Hmap. exact H2.
@@ -710,10 +716,11 @@ Proof.
   - assert (E : mean (map (fun v => sq (qabs (v - mean l))) l) * Qnat (List.length l)
                 == (mean (map sq l) - mean l * mean l) * Qnat (List.length l)).
     { rewrite H3, qsum_shift. rewrite <- H2, <- H1. ring. }
-    apply (Qmult_inj_r _ _ (Qnat (List.length l))); [lra|exact E].
+    assert (Hz : ~ Qnat (List.length l) == 0) by (intro Z; rewrite Z in Hn; exact (Qlt_irrefl 0 Hn)).
+    apply (proj1 (Qmult_inj_r _ _ _ Hz)). exact E.
   - unfold mean at 1. apply Qdiv_nonneg; [|rewrite map_length; exact Hn].
     apply qsum_nonneg. intros v Hv. apply in_map_iff in Hv as (w & <- & _). rewrite sq_qabs.
-    assert (0 <= (w - mean l) * (w - mean l)) by nra. assumption.
+    apply sqr_nonneg.
   - intros v Hv. rewrite El in Hv. destruct Hv as [<-|Hv]; [apply fold_qmax_ge|].
     apply fold_qmax_ub. now apply in_map.
   - destruct (fold_qmax_in (map qabs t) (qabs x)) as [H|H].
@@ -728,3 +735,314 @@ Qed.
 
 Lemma summarize_none : summarize [] = None.
 Proof. reflexivity. Qed.
+
+(* ========================================================================================== *)
+(* G. rates                                                                                    *)
+(* ========================================================================================== *)
+Definition in01 (q : Q) : Prop := 0 <= q /\ q <= 1.
+Definition ratios_in01 (r : Ratios) : Prop := in01 (q_tp r) /\ in01 (q_fp r) /\ in01 (q_tn r) /\ in01 (q_fn r).
+
+Lemma nat_ratio_in01 : forall a b, (a <= b)%nat -> (0 < b)%nat -> in01 (Qnat a / Qnat b).
+Proof.
+  intros a b H1 H2. split.
+  - apply Qdiv_nonneg; [apply Qnat_nonneg|now apply Qnat_pos].
+  - apply Qdiv_le_1; [now apply Qnat_pos|now apply Qnat_le].
+Qed.
+
+Lemma filter_len_le : forall A (p : A -> bool) l, (List.length (filter p l) <= List.length l)%nat.
+Proof. induction l as [|x l IH]; simpl; [lia|]. destruct (p x); simpl; lia. Qed.
+
+Lemma in01_0 : in01 0.
+Proof. split; lra. Qed.
+
+(* all that is needed is: TP estimates <= ground-truth rows under the row's selection *)
+Lemma ratio_row_in01 : forall ol t,
+  (num_tp (match ol with Some l => [CLabel [l]] | None => [] end) t
+   <= num_ground_truth (match ol with Some l => [CLabel [l]] | None => [] end) t)%nat ->
+  ratios_in01 (ratio_row ol t).
+Proof.
+  intros ol t H. unfold ratio_row. cbv zeta.
+  set (cs := match ol with Some l => [CLabel [l]] | None => [] end) in *.
+  destruct (Nat.ltb_spec 0 (num_ground_truth cs t)) as [L|L].
+  - unfold ratios_in01; cbn [q_tp q_fp q_tn q_fn]. split; [|split; [|split]].
+    + now apply nat_ratio_in01.
+    + destruct (Nat.eqb_spec (num_tp cs t + num_fp cs t) 0); [apply in01_0|]. apply nat_ratio_in01; lia.
+    + apply nat_ratio_in01; [|assumption]. unfold num_tn, num_ground_truth, count_status. apply filter_len_le.
+    + apply nat_ratio_in01; [|assumption]. unfold num_fn, num_ground_truth, count_status. apply filter_len_le.
+  - unfold ratios_in01; cbn [q_tp q_fp q_tn q_fn]. repeat split; lra.
+Qed.
+
+Lemma status_eqb_eq : forall a b, status_eqb a b = true -> a = b.
+Proof. intros [] []; simpl; congruence. Qed.
+
+(* a row pair whose estimate is a selected TP has a selected ground-truth row *)
+Definition tp_covered (cs : list crit) (p : option Row * option Row) : Prop :=
+  forall r, snd p = Some r -> row_ok cs r = true -> r_status r = TP -> exists g, fst p = Some g /\ row_ok cs g = true.
+
+Lemma tp_le_gt_rp : forall cs (l : RP), (forall p, In p l -> tp_covered cs p) ->
+  (cnt_rows estR (sel_st cs TP) l <= cnt_rows gtR (row_ok cs) l)%nat.
+Proof.
+  induction l as [|[g e] l IH]; intros H; [unfold cnt_rows; simpl; lia|].
+  change ((g, e) :: l) with ([(g, e)] ++ l). rewrite cnt_rows_est_app, cnt_rows_gt_app.
+  assert (IH' : (cnt_rows estR (sel_st cs TP) l <= cnt_rows gtR (row_ok cs) l)%nat) by (apply IH; intros p Hp; apply H; now right).
+  assert (H0 : (cnt_rows estR (sel_st cs TP) [(g, e)] <= cnt_rows gtR (row_ok cs) [(g, e)])%nat).
+  { unfold cnt_rows, estR, gtR. cbn [flat_map fst snd app]. destruct e as [r|]; cbn [opt_list app filter List.length]; [|lia].
+    unfold sel_st. destruct (row_ok cs r) eqn:E1; cbn [andb]; [|simpl; lia].
+    destruct (status_eqb (r_status r) TP) eqn:E2; [|simpl; lia].
+    destruct (H (g, Some r) (or_introl eq_refl) r eq_refl E1 (status_eqb_eq _ _ E2)) as (g' & Hg & Hok).
+    cbn [fst] in Hg. subst g. cbn [opt_list app filter]. rewrite Hok. simpl. lia. }
+  lia.
+Qed.
+
+Lemma tp_le_gt : forall cs t, (forall e, In e t -> tp_covered cs (e_gt e, e_est e)) ->
+  (num_tp cs t <= num_ground_truth cs t)%nat.
+Proof.
+  intros cs t H. rewrite num_tp_rp, num_ground_truth_rp. apply tp_le_gt_rp.
+  intros p Hp. unfold rows_of in Hp. apply in_map_iff in Hp as (e & <- & He). now apply H.
+Qed.
+
+Lemma in_scene_rows : forall areas scenes k p, In p (scene_rows areas k scenes) ->
+  exists k' f, In f (all_frames scenes) /\ In p (frame_rows areas k' f).
+Proof.
+  induction scenes as [|frs rest IH]; intros k p H; simpl in H; [contradiction|].
+  apply in_app_or in H as [H|H].
+  - apply in_flat_map in H as (f & Hf & Hp). exists k, f. split; [|assumption].
+    unfold all_frames. simpl. apply in_or_app. now left.
+  - destruct (IH _ _ H) as (k' & f & Hf & Hp). exists k', f. split; [|assumption].
+    unfold all_frames in *. simpl. apply in_or_app. now right.
+Qed.
+
+(* which selections a TP pair passes on both rows: those that look at fields the two rows share, or at the label when
+   the labels agree *)
+Lemma frame_rows_tp_covered : forall areas k f cs,
+  (forall e g, In (e, g) (f_tp f) ->
+     row_ok cs (est_row areas k f TP e) = true -> row_ok cs (gt_row_of_pair areas k f TP e g) = true) ->
+  forall p, In p (frame_rows areas k f) -> tp_covered cs p.
+Proof.
+  intros areas k f cs H p Hp r Hr Hok Hst. unfold frame_rows in Hp.
+  apply in_app_or in Hp as [Hp|Hp]; [|apply in_app_or in Hp as [Hp|Hp]; [|apply in_app_or in Hp as [Hp|Hp]]];
+    apply in_map_iff in Hp as (x & <- & Hx); cbn [fst snd] in *.
+  - injection Hr as <-. destruct x as [e g]. eexists. split; [reflexivity|]. now apply (H e g).
+  - injection Hr as <-. discriminate Hst.
+  - discriminate Hr.
+  - discriminate Hr.
+Qed.
+
+Lemma build_tp_covered : forall areas scenes cs,
+  (forall k f e g, In f (all_frames scenes) -> In (e, g) (f_tp f) ->
+     row_ok cs (est_row areas k f TP e) = true -> row_ok cs (gt_row_of_pair areas k f TP e g) = true) ->
+  forall (q : Entry -> bool) e, In e (filter q (build areas scenes)) -> tp_covered cs (e_gt e, e_est e).
+Proof.
+  intros areas scenes cs H q e He. apply filter_In in He as [He _].
+  assert (Hp : In (e_gt e, e_est e) (rows_of (build areas scenes))).
+  { unfold rows_of. apply in_map_iff. now exists e. }
+  rewrite build_rows in Hp. apply in_scene_rows in Hp as (k & f & Hf & Hp).
+  eapply frame_rows_tp_covered; [|exact Hp]. intros. eapply H; eassumption.
+Qed.
+
+(* the ALL row: every built table, every selection of its row pairs -- also with the F11 overcount *)
+Theorem rates_unit_interval_all : forall areas scenes (q : Entry -> bool),
+  ratios_in01 (ratio_row None (filter q (build areas scenes))).
+Proof.
+  intros. apply ratio_row_in01. apply tp_le_gt. apply build_tp_covered. intros. reflexivity.
+Qed.
+
+(* a label row: when the TP pairs carry equal labels *)
+Theorem rates_unit_interval_label : forall areas scenes (q : Entry -> bool) l,
+  (forall f e g, In f (all_frames scenes) -> In (e, g) (f_tp f) -> o_label e = o_label g) ->
+  ratios_in01 (ratio_row (Some l) (filter q (build areas scenes))).
+Proof.
+  intros areas scenes q l H. apply ratio_row_in01. apply tp_le_gt. apply build_tp_covered.
+  intros k f e g Hf Hin. unfold row_ok, est_row, gt_row_of_pair. cbn [forallb crit_ok r_obj]. now rewrite (H f e g Hf Hin).
+Qed.
+
+(* the frame selected by analyze() is a filter of the table *)
+Lemma analyze_frame_is_filter : forall cs dist t,
+  exists q, (match dist with Some (lo, hi) => filter_by_distance lo hi (tbl_filter cs t) | None => tbl_filter cs t end) = filter q t.
+Proof.
+  intros cs [[lo hi]|] t.
+  - unfold filter_by_distance, tbl_filter. rewrite filter_filter. eexists. reflexivity.
+  - unfold tbl_filter. eexists. reflexivity.
+Qed.
+
+Theorem analyze_rates_unit_interval : forall P nt nc cs dist areas scenes a,
+  analyze P nt nc cs dist (build areas scenes) = Some a ->
+  (exists r rest, a_ratio a = r :: rest /\ ratios_in01 r) /\
+  ((forall f e g, In f (all_frames scenes) -> In (e, g) (f_tp f) -> o_label e = o_label g) ->
+   forall r, In r (a_ratio a) -> ratios_in01 r).
+Proof.
+  intros P nt nc cs dist areas scenes a H. unfold analyze in H. cbv zeta in H.
+  destruct (analyze_frame_is_filter cs dist (build areas scenes)) as (q & Hq).
+  destruct dist as [[lo hi]|]; rewrite Hq in H;
+    (destruct (filter q (build areas scenes)) eqn:E; [discriminate|]; injection H as <-; cbn [a_ratio]; rewrite <- E; split;
+     [eexists; eexists; split; [reflexivity|apply rates_unit_interval_all]
+     |intros Hl r Hr; unfold summarize_ratio in Hr; apply in_map_iff in Hr as (ol & <- & _);
+      destruct ol as [lb|]; [now apply rates_unit_interval_label|apply rates_unit_interval_all]]).
+Qed.
+
+(* F15 witness: "unknown" (label 3) is a target label; two unknown estimates are TP on two cars; one unknown ground truth is FN *)
+Definition u_frame : Frame :=
+  mkFrame 0 [(mkObj 3 3 false 10 (1 # 4) 0 10 2 4, mkObj 0 0 false 10 0 0 10 2 4);
+             (mkObj 4 3 false 20 (21 # 4) 0 20 2 4, mkObj 1 0 false 20 5 0 20 2 4)]
+          [] [] [mkObj 2 3 false (-30) 5 0 30 2 4] 3.
+
+Theorem label_rate_unit_interval_refuted :
+  exists areas scenes l,
+    (forall f, In f (all_frames scenes) -> accounted f) /\
+    1 < q_tp (ratio_row (Some l) (build areas scenes)).
+Proof.
+  exists w_areas, [[u_frame]], 3%nat. split; [intros f [<-|[]]; vm_compute; reflexivity|]. vm_compute. reflexivity.
+Qed.
+
+(* ========================================================================================== *)
+(* H. confusion matrix                                                                         *)
+(* ========================================================================================== *)
+Lemma list_sum_map_plus : forall A (f g : A -> nat) l,
+  list_sum (map (fun x => (f x + g x)%nat) l) = (list_sum (map f l) + list_sum (map g l))%nat.
+Proof. induction l as [|x l IH]; simpl; [reflexivity|]. rewrite IH. lia. Qed.
+
+Lemma list_sum_zero : forall A (l : list A), list_sum (map (fun _ => 0%nat) l) = 0%nat.
+Proof. induction l as [|x l IH]; simpl; [reflexivity|]. exact IH. Qed.
+
+Lemma indicator_sum : forall x N, list_sum (map (fun k => if Nat.eqb k x then 1 else 0)%nat (seq 0 N)) = if Nat.ltb x N then 1%nat else 0%nat.
+Proof.
+  intros x. induction N as [|N IH]; [reflexivity|].
+  rewrite seq_S, map_app, list_sum_app, IH. cbn [map list_sum Nat.add].
+  destruct (Nat.ltb_spec x N), (Nat.ltb_spec x (S N)), (Nat.eqb_spec N x); simpl; lia.
+Qed.
+
+Lemma count_nat_cons : forall k x l, count_nat k (x :: l) = ((if Nat.eqb k x then 1 else 0) + count_nat k l)%nat.
+Proof. intros. unfold count_nat. simpl. destruct (Nat.eqb k x); reflexivity. Qed.
+
+Lemma sum_counts : forall l N, (forall x, In x l -> (x < N)%nat) ->
+  list_sum (map (fun k => count_nat k l) (seq 0 N)) = List.length l.
+Proof.
+  induction l as [|x l IH]; intros N H.
+  - unfold count_nat. simpl. apply list_sum_zero.
+  - rewrite (map_ext _ (fun k => ((if Nat.eqb k x then 1 else 0) + count_nat k l)%nat)) by (intros; apply count_nat_cons).
+    rewrite list_sum_map_plus, indicator_sum, IH by (intros y Hy; apply H; now right).
+    assert (x < N)%nat by (apply H; now left). destruct (Nat.ltb_spec x N); simpl; lia.
+Qed.
+
+Lemma fold_max_lt : forall l m, (forall x, In x l -> (x < m)%nat) -> (0 < m)%nat -> (fold_right Nat.max 0%nat l < m)%nat.
+Proof.
+  induction l as [|x l IH]; intros m H Hm; simpl; [assumption|].
+  apply Nat.max_lub_lt; [apply H; now left|apply IH; [intros y Hy; apply H; now right|assumption]].
+Qed.
+
+Lemma bincount_exact : forall l m, (forall x, In x l -> (x < m)%nat) -> l <> [] ->
+  bincount l m = map (fun k => count_nat k l) (seq 0 m).
+Proof.
+  intros l m H Hl. unfold bincount. f_equal. f_equal.
+  assert (0 < m)%nat. { destruct l as [|x l]; [congruence|]. specialize (H x (or_introl eq_refl)). lia. }
+  pose proof (fold_max_lt l m H H0). lia.
+Qed.
+
+Lemma concat_chunks : forall f n l, List.length l = (f * n)%nat -> concat (chunks f n l) = l.
+Proof.
+  induction f as [|f IH]; intros n l H; simpl in *.
+  - destruct l; [reflexivity|discriminate].
+  - rewrite IH; [apply firstn_skipn|]. rewrite skipn_length. lia.
+Qed.
+
+Lemma chunks_length : forall f n l, List.length (chunks f n l) = f.
+Proof. induction f as [|f IH]; intros; simpl; [reflexivity|]. now rewrite IH. Qed.
+
+Lemma nth_firstn_lt : forall A (d : A) n l j, (j < n)%nat -> nth j (firstn n l) d = nth j l d.
+Proof.
+  induction n as [|n IH]; intros l j H; [lia|]. destruct l as [|x l]; [reflexivity|].
+  destruct j as [|j]; simpl; [reflexivity|]. apply IH. lia.
+Qed.
+
+Lemma nth_skipn_plus : forall A (d : A) n l k, nth k (skipn n l) d = nth (n + k) l d.
+Proof.
+  induction n as [|n IH]; intros l k; [reflexivity|]. destruct l as [|x l]; simpl; [now destruct k|]. apply IH.
+Qed.
+
+Lemma nth_chunks : forall f n l i j, (i < f)%nat -> (j < n)%nat ->
+  nth j (nth i (chunks f n l) []) 0%nat = nth (i * n + j) l 0%nat.
+Proof.
+  induction f as [|f IH]; intros n l i j Hi Hj; [lia|]. simpl.
+  destruct i as [|i].
+  - simpl. now apply nth_firstn_lt.
+  - rewrite IH by lia. rewrite nth_skipn_plus. f_equal. lia.
+Qed.
+
+Lemma nth_map_seq : forall (F : nat -> nat) N k, (k < N)%nat -> nth k (map F (seq 0 N)) 0%nat = F k.
+Proof.
+  intros F N k H. rewrite (nth_indep _ 0%nat (F 0%nat)) by (now rewrite map_length, seq_length).
+  rewrite map_nth, seq_nth by assumption. reflexivity.
+Qed.
+
+Lemma cm_index_inj : forall nc g e i j, (e < nc)%nat -> (j < nc)%nat ->
+  Nat.eqb (i * nc + j) (nc * g + e) = Nat.eqb g i && Nat.eqb e j.
+Proof.
+  intros nc g e i j He Hj.
+  destruct (Nat.eqb_spec g i) as [->|Hg]; cbn [andb].
+  - destruct (Nat.eqb_spec e j) as [->|He']; [apply Nat.eqb_eq; lia|]. apply Nat.eqb_neq. lia.
+  - apply Nat.eqb_neq. intros E. apply Hg.
+    destruct (lt_eq_lt_dec g i) as [[L|L]|L]; [|assumption|].
+    + assert (nc * (g + 1) <= nc * i)%nat by (apply Nat.mul_le_mono_l; lia). lia.
+    + assert (nc * (i + 1) <= nc * g)%nat by (apply Nat.mul_le_mono_l; lia). lia.
+Qed.
+
+Definition labels_ok (nc : nat) (ps : list (Row * Row)) : Prop :=
+  forall p, In p ps -> (o_label (r_obj (fst p)) < nc)%nat /\ (o_label (r_obj (snd p)) < nc)%nat.
+
+Lemma labels_ok_b : forall nc ps,
+  forallb (fun p : Row * Row => Nat.ltb (o_label (r_obj (fst p))) nc && Nat.ltb (o_label (r_obj (snd p))) nc) ps = true
+  <-> labels_ok nc ps.
+Proof.
+  intros. rewrite forallb_forall. unfold labels_ok. split; intros H p Hp; specialize (H p Hp).
+  - apply andb_true_iff in H as [H1 H2]. split; now apply Nat.ltb_lt.
+  - apply andb_true_iff. split; apply Nat.ltb_lt; tauto.
+Qed.
+
+Lemma cm_index_lt : forall nc p, (o_label (r_obj (fst p)) < nc)%nat -> (o_label (r_obj (snd p)) < nc)%nat -> (cm_index nc p < nc * nc)%nat.
+Proof.
+  intros nc p H1 H2. unfold cm_index.
+  assert (nc * (o_label (r_obj (fst p)) + 1) <= nc * nc)%nat by (apply Nat.mul_le_mono_l; lia). lia.
+Qed.
+
+Lemma count_cm_index : forall nc ps i j, labels_ok nc ps -> (j < nc)%nat ->
+  count_nat (i * nc + j) (map (cm_index nc) ps) =
+    List.length (filter (fun p : Row * Row => Nat.eqb (o_label (r_obj (fst p))) i && Nat.eqb (o_label (r_obj (snd p))) j) ps).
+Proof.
+  intros nc ps i j H Hj. unfold count_nat. induction ps as [|p ps IH]; [reflexivity|].
+  cbn [map filter]. unfold cm_index at 1.
+  destruct (H p (or_introl eq_refl)) as [H1 H2]. rewrite cm_index_inj by assumption.
+  assert (IH' := IH (fun q Hq => H q (or_intror Hq))).
+  destruct (Nat.eqb (o_label (r_obj (fst p))) i && Nat.eqb (o_label (r_obj (snd p))) j); cbn [List.length]; now rewrite IH'.
+Qed.
+
+Theorem confusion_sums_to_pairs : forall nc t,
+  match get_confusion_matrix nc t with
+  | CMOk m =>
+      labels_ok nc (pair_results t) /\ pair_results t <> [] /\
+      List.length m = nc /\
+      list_sum (concat m) = List.length (pair_results t) /\
+      forall i j, (i < nc)%nat -> (j < nc)%nat ->
+        nth j (nth i m []) 0%nat =
+          List.length (filter (fun p : Row * Row => Nat.eqb (o_label (r_obj (fst p))) i && Nat.eqb (o_label (r_obj (snd p))) j)
+                              (pair_results t))
+  | CMNone => pair_results t = []
+  | CMError => ~ labels_ok nc (pair_results t)          (* list.index raises ValueError *)
+  end.
+Proof.
+  intros nc t. unfold get_confusion_matrix. cbv zeta.
+  destruct (forallb _ (pair_results t)) eqn:E; cbn [negb].
+  2:{ intros H. apply labels_ok_b in H. congruence. }
+  apply labels_ok_b in E.
+  destruct (pair_results t) as [|p0 ps] eqn:Eps; [reflexivity|]. rewrite <- Eps in *.
+  assert (Hne : pair_results t <> []) by (rewrite Eps; discriminate).
+  assert (Hidx : forall x, In x (map (cm_index nc) (pair_results t)) -> (x < nc * nc)%nat).
+  { intros x Hx. apply in_map_iff in Hx as (p & <- & Hp). destruct (E p Hp). now apply cm_index_lt. }
+  rewrite bincount_exact; [|assumption|rewrite Eps; discriminate].
+  rewrite map_length, seq_length, Nat.eqb_refl.
+  split; [assumption|]. split; [assumption|]. split; [apply chunks_length|]. split.
+  - rewrite concat_chunks by (now rewrite map_length, seq_length).
+    rewrite sum_counts by assumption. apply map_length.
+  - intros i j Hi Hj. rewrite nth_chunks by assumption.
+    assert (i * nc + j < nc * nc)%nat. { assert (nc * (i + 1) <= nc * nc)%nat by (apply Nat.mul_le_mono_l; lia). lia. }
+    rewrite nth_map_seq by assumption. now apply count_cm_index.
+Qed.
